@@ -28,6 +28,30 @@ def xzc(data, **kw):
     return lzma.compress(data, **kw)
 
 
+def fit(make, target, rng):
+    """random data whose image under `make` (a compressor) has exactly `target` bytes: the stream then ends exactly
+    on a boundary of xz's 8 KiB I/O buffer"""
+    base = bytes(rng.getrandbits(8) for _ in range(target + 64))
+    n = target - 160
+    for _ in range(6):
+        n = max(1, min(len(base), n + target - len(make(base[:n]))))
+    for m in range(max(1, n - 40), min(len(base), n + 40)):
+        for tweak in range(6):
+            d = base[:m] if tweak == 0 else base[:m - 1] + bytes([(tweak * 41) & 255])
+            c = make(d)
+            if len(c) == target:
+                return d, c
+    raise RuntimeError("no input with compressed size %d found" % target)
+
+
+def lz_member(d):
+    """a lzip member built by hand (LZMA1 lc=3 lp=0 pb=2 with end marker, CRC32, sizes)"""
+    import struct, zlib
+    body = b"LZIP\x01\x10" + lzma.compress(d, format=lzma.FORMAT_RAW, filters=[
+        {"id": lzma.FILTER_LZMA1, "lc": 3, "lp": 0, "pb": 2, "dict_size": 1 << 16}])
+    return body + struct.pack("<IQQ", zlib.crc32(d) & 0xFFFFFFFF, len(d), len(body) + 20)
+
+
 def make_modes(ctx):
     rng, quick = ctx.rng, ctx.quick()
     n1 = rng.randrange(50000, 70000)
@@ -73,6 +97,32 @@ def make_modes(ctx):
     # several files to standard output in one invocation: a file aborted half-way must not leak state into the next one
     m.append(Mode("decompress-stdout-multi", ["-dc"], [F("p1.xz", None, xzc(tail_sparse, preset=1), tail_sparse),
                                                           F("p2.xz", None, xzc(exact, preset=1), exact)], direction="d", stdout=True))
+    # invalid input whose valid part ends EXACTLY on an 8 KiB read boundary (avail_in == 0 and not yet EOF when
+    # LZMA_STREAM_END arrives: only the extra one-byte io_read() of coder_normal() sees the trailing bytes)
+    mk_alone = lambda d: lzma.compress(d, format=lzma.FORMAT_ALONE, preset=1)
+    mk_raw = lambda d: lzma.compress(d, format=lzma.FORMAT_RAW, filters=[{"id": lzma.FILTER_LZMA2, "preset": 1}])
+    raw_args = ["-d", "--format=raw", "--suffix=.raw", "--lzma2=preset=1"]
+    d1, c1 = fit(mk_alone, 8192, rng)
+    m.append(Mode("decompress-lzma-boundary-garbage", ["-d"], [F("a.lzma", "a", c1 + mk_alone(plain[:3000]), d1)], direction="d", valid=False))
+    d2, c2 = fit(mk_raw, 8192, rng)
+    m.append(Mode("decompress-raw-boundary-garbage", raw_args, [F("a.raw", "a", c2 + b"\x01trailing bytes", d2)], direction="d", valid=False))
+    d3, c3 = fit(lambda d: lzma.compress(d, preset=1), 8192, rng)
+    m.append(Mode("decompress-xz-boundary-garbage", ["-d"], [F("b.xz", "b", c3 + b"garbage after the stream", d3)], direction="d", valid=False))
+    d4, c4 = fit(lz_member, 8192, rng)
+    m.append(Mode("decompress-lz-boundary-trailing", ["-d"], [F("c.lz", "c", c4 + b"trailing data is allowed after .lz", d4)], direction="d"))
+    # one hooked signal inherited as ignored (e.g. SIGINT for `xz file &` from a non-interactive shell): the handlers
+    # of all OTHER signals must still be installed, the ignored one must stay without effect
+    m.append(Mode("compress-sigint-ignored", [], [F("a.txt", "a.txt.xz", small[0], small[0])], ignored_sig=2))
+    m.append(Mode("decompress-sighup-ignored", ["-d"], [F("a.xz", "a", xzc(small[1], preset=1), small[1])], direction="d", ignored_sig=1))
+    if not quick:
+        for sg, nm in ((15, "sigterm"), (13, "sigpipe"), (24, "sigxcpu"), (25, "sigxfsz")):
+            m.append(Mode("compress-%s-ignored" % nm, [], [F("a.txt", "a.txt.xz", small[2], small[2])], ignored_sig=sg))
+        m.append(Mode("decompress-sigint-ignored", ["-d"], [F("a.xz", "a", xzc(small[2], preset=1), small[2])], direction="d", ignored_sig=2))
+        d5, c5 = fit(mk_alone, 16384, rng)
+        m.append(Mode("decompress-lzma-boundary16k-garbage", ["-d"], [F("a.lzma", "a", c5 + b"\0" * 5, d5)], direction="d", valid=False))
+        d6, c6 = fit(mk_raw, 16384, rng)
+        m.append(Mode("decompress-raw-boundary16k-garbage", raw_args, [F("a.raw", "a", c6 + c2, d6)], direction="d", valid=False))
+        m.append(Mode("decompress-lzma-boundary-valid", ["-d"], [F("a.lzma", "a", c1, d1)], direction="d"))
     if not quick:
         big = gen_text(rng, rng.randrange(550000, 650000))
         mid = gen_text(rng, 300000)
@@ -109,9 +159,12 @@ def enumerate_plans(ctx, mode, ref_events, rng):
             plans.append(Plan(faults={k: ("E", 13)}, tag="errno"))
         plans.append(Plan(crash=(k, "X"), tag="_exit"))
         plans.append(Plan(crash=(k, "K"), tag="SIGKILL"))
-        sigs = [x for x in L.SIGS if not (mode.sigpipe_ignored and x == 13)]
-        for s in sigs:
-            plans.append(Plan(sig=(k, s, False), tag="signal"))
+        # with one signal inherited as ignored, every hooked signal is tried (the ignored one must stay without effect,
+        # every other one must still be handled); otherwise the four usual ones (thorough: all six)
+        deliver = list(L.SIGS_ALL) if (mode.ignored_sig or not ctx.quick()) else list(L.SIGS)
+        sigs = [x for x in deliver if x != mode.ignored_sig]
+        for s in deliver:
+            plans.append(Plan(sig=(k, s, False), tag="signal" if s != mode.ignored_sig else "ignored-signal"))
         if op == "write" and (mode.stdout or mode.stdin):
             # the reader of the pipe went away (SIGPIPE handled by xz, or inherited as ignored)
             plans.append(Plan(epipe=k, tag="EPIPE-sigpipe-ignored" if mode.sigpipe_ignored else "EPIPE+SIGPIPE"))
@@ -182,7 +235,14 @@ def direct_oracle(mode, plan, res, ref_events):
     inj = [(r["op"], r["name"], r["inj"], r) for r in obs if r["inj"] != "-"]
     cleanup_faulted = any(op in ("stat", "lstat", "unlink", "fstat") and "E" in i for op, nm, i, _ in inj)
     moved = plan.move[1] if plan.move and any("M" in i for _, _, i, _ in inj) else None
-    signalled = any(("G" in i or "J" in i or ("P" in i and not mode.sigpipe_ignored)) for _, _, i, _ in inj)
+    def _delivers(i):
+        for part in i.split("+"):
+            if part[:1] in "GJ" and part[1:].isdigit() and int(part[1:]) != mode.ignored_sig:
+                return True
+            if part[:1] == "P" and not mode.sigpipe_ignored:
+                return True
+        return False
+    signalled = any(_delivers(i) for _, _, i, _ in inj)
     crashed = plan.crash is not None and L.observed_exit(res, plan) == "crash"
     psig = plan.sig_eff(mode)
     hard = False
@@ -463,7 +523,7 @@ def run(ctx):
                 if rng.random() < 0.5:
                     cases.append((mode, Plan(faults={k1: ("E", rng.choice((5, 28, 4, 11))), k2: ("E", rng.choice((5, 13, 4)))}, tag="double-fault")))
                 else:
-                    cases.append((mode, Plan(faults={k1: ("E", rng.choice((5, 4, 11)))}, sig=(k2, rng.choice([x for x in L.SIGS if not (mode.sigpipe_ignored and x == 13)]), False), tag="fault+signal")))
+                    cases.append((mode, Plan(faults={k1: ("E", rng.choice((5, 4, 11)))}, sig=(k2, rng.choice([x for x in L.SIGS if x != mode.ignored_sig]), False), tag="fault+signal")))
     ctx.log("%d modes, %d runs of xz" % (len(modes), len(cases)))
     results = vlib.par_map(lambda mp: L.run_case(xz, so, mp[0], mp[1]), cases)
     # direct oracle + model lines
@@ -540,7 +600,7 @@ def search(ctx, xz, so, modes, refs):
         n = len(flat)
         for e in flat:
             if e["op"] in ("read", "write", "close", "fsync", "unlink", "lseek"):
-                for s in [x for x in L.SIGS if not (mode.sigpipe_ignored and x == 13)]:
+                for s in [x for x in L.SIGS_ALL if x != mode.ignored_sig]:
                     cases.append((mode, Plan(faults={e["k"]: ("E", 5)}, sig=(max(1, e["k"] - 1), s, False), tag="search")))
                 cases.append((mode, Plan(faults={e["k"]: ("S", 1), e["k"] + 1: ("E", 28)}, tag="search")))
                 cases.append((mode, Plan(faults={e["k"]: ("S", 1)}, crash=(e["k"] + 1, "K"), tag="search")))
